@@ -499,6 +499,12 @@ struct Runner {
   SpanM* do_alloc(size_t req, int init, uint64_t seed, const char* where = "alloc") {
     bool must_reject = req == 0 || req > size_t(0x7FFFFFFFu);
     if (!must_reject && (sum + req > (size_t(40) << 20) || order.size() >= 3000)) { cls("alloc_skipped_cap"); return nullptr; }
+    if (!must_reject && ctx.is_known("full-block-stale-search-range") && may_fill_append_only_block(align_up(req, G))) {
+      // known-finding exclusion (see note_block_fill): do not make an append-only block exactly full
+      ctx.known_excluded("full-block-stale-search-range");
+      cls("alloc_skipped_would_fill_block_known");
+      return nullptr;
+    }
     Span s;
     s._rx = &s; s._rw = &s; s._size = 777;
     Error e = A.alloc(Out(s), req);
@@ -555,6 +561,7 @@ struct Runner {
       if (st.block_count() == Bc && unknown_retained > 0) {
         unknown_retained--;
         bm.from_reset = true;
+        if (Bc == 1) bm.cap = st.reserved_size();
         from_reset_block = true;
         cls("alloc_reused_reset_block");
       } else {
@@ -649,7 +656,22 @@ struct Runner {
   // shrinking anything else in that block leaves free granules outside the search range, and BitVectorRangeIterator then
   // returns a range that starts beyond the range end -> alloc() marks bits past the end of the block (heap overflow, span
   // beyond the mapping). The run cannot continue past a sanitizer abort, so when the key is listed the history is cut as
-  // soon as a block becomes exactly full (conservative superset of the trigger).
+  // soon as a block that is still in its initial append-only mode (see BlockM) becomes exactly full (superset of the trigger).
+  // Could an allocation of `sz` bytes (granule multiple) make a block that is still append-only exactly full?
+  // Superset: every existing append-only block, and a fresh block (its size is a multiple of block_size()).
+  bool may_fill_append_only_block(size_t sz) const {
+    for (size_t m = pad ? 1 : 0; m <= (pad ? (multi ? 4u : 1u) : 0u); m = m ? m * 2 : 5) {
+      size_t p = m * G;
+      if ((sz + p) % B0 == 0) return true;
+      for (auto& kv : blocks) {
+        const BlockM& bm = kv.second;
+        if (!bm.append_only) continue;
+        if (bm.cap ? bm.bytes + sz + p == bm.cap : (bm.bytes + sz + p) % B0 == 0) return true;
+      }
+    }
+    return false;
+  }
+
   void note_block_fill(void* block, size_t req) {
     auto it = blocks.find(block);
     if (it == blocks.end()) return;
@@ -661,6 +683,8 @@ struct Runner {
     }
     if (!full) return;
     cls("block_exactly_full");
+    // the stale search range only arises while the block is still in its initial append-only mode
+    if (!bm.append_only) { cls("block_exactly_full_after_holes"); return; }
     (void)req;
     if (ctx.is_known("full-block-stale-search-range") && !truncated) {
       truncated = true;
